@@ -22,10 +22,10 @@ for ng in (122, 123, 124, 125, 126, 127):
 def short_uw(l):
     d = seed_uw(); d.update({k: l + 2 for k in ("strcmp.0", "strncmp.0", "hwloc__type_match.0", "strchr.0", "strspn.0", "strspn.1", "strcspn.0", "strcspn.1", "vp_strto.0", "vp_strto.1", "strncasecmp.0", "strlen.0",
                                                  "hwloc_backend_synthetic_init.0", "hwloc_backend_synthetic_init.1", "hwloc_backend_synthetic_init.2", "hwloc_synthetic_parse_attrs.0", "hwloc__osdev_types_sscanf.0")}); return d
-HARNESSES.append(dict(COMMON, name="parse_bytes", entry="h_parse_bytes", encoded=PARSE, checks="safety+", tiers={"quick": {"defines": {"L": 3, "HWLOC_VERIF_SYNTHETIC_MAX_DEPTH": 6}, "unwindset": short_uw(3), "unwind": 8}, "thorough": {"defines": {"L": 5, "HWLOC_VERIF_SYNTHETIC_MAX_DEPTH": 8}, "unwindset": short_uw(5), "unwind": 10, "timeout": 6000}},
-                      bounds="every NUL-terminated string of L arbitrary bytes (L = 3 quick, 5 thorough) in an exactly sized object", cost=60))
-HARNESSES.append(dict(COMMON, name="indexes_types", entry="h_indexes_types", defines={"HWLOC_VERIF_SYNTHETIC_MAX_DEPTH": 8}, encoded=PARSE, tiers={"quick": {}, "thorough": {}}, unwind=20,
-                      bounds="pack:2 numa:2 core:2 pu:2(indexes=T1:T2:T3) with every choice of T1,T2,T3 among pack/numa/core (27 strings incl. invalid duplicates), chosen symbolically", cost=60))
+HARNESSES.append(dict(COMMON, name="parse_bytes", entry="h_parse_bytes", encoded=PARSE, checks="safety+", tiers={"quick": {"defines": {"L": 2, "HWLOC_VERIF_SYNTHETIC_MAX_DEPTH": 6}, "unwindset": short_uw(2), "unwind": 8}, "thorough": {"defines": {"L": 3, "HWLOC_VERIF_SYNTHETIC_MAX_DEPTH": 6}, "unwindset": short_uw(3), "unwind": 8, "timeout": 8000}},
+                      bounds="every NUL-terminated string of L arbitrary bytes (L = 2 quick, 3 thorough) in an exactly sized object", core=False, cost=60))
+HARNESSES.append(dict(COMMON, name="indexes_types", entry="h_indexes_types", defines={"HWLOC_VERIF_SYNTHETIC_MAX_DEPTH": 8}, encoded=PARSE, tiers={"quick": {}, "thorough": {}}, unwind=20, unwindset=dict(init_uw(24), **{"hwloc_synthetic_process_indexes.0": 24, "hwloc_synthetic_process_indexes.1": 24, "hwloc_synthetic_process_indexes.2": 24, "hwloc_synthetic_process_indexes.3": 24, "hwloc_synthetic_process_indexes.4": 24, "hwloc_synthetic_process_indexes.5": 24, "hwloc_synthetic_process_indexes.6": 24, "hwloc_synthetic_process_indexes.7": 24, "h_indexes_types.0": 6, "h_indexes_types.1": 6, "h_indexes_types.2": 6, "h_indexes_types.3": 6, "indexes_case.0": 40, "indexes_case.1": 6, "indexes_case.2": 6, "indexes_case.3": 6, "indexes_case.4": 20, "indexes_case.5": 20, "strlen.0": 64, "strchr.0": 70}),
+                      bounds="pack:2 numa:2 core:2 pu:2(indexes=T1:T2:T3) with every choice of T1,T2,T3 among pack/numa/core (27 strings incl. invalid duplicates), chosen symbolically among concretely built texts", cost=60, object_bits=13))
 HARNESSES.append(dict(COMMON, name="export_cursor", entry="h_export_cursor", defines={"HWLOC_VERIF_SYNTHETIC_MAX_DEPTH": 8}, unwind=68,
                       encoded=["hwloc_topology_export_synthetic", "hwloc__export_synthetic_obj", "hwloc__export_synthetic_obj_attr", "hwloc__export_synthetic_indexes", "hwloc__export_synthetic_memory_children", "hwloc__export_synthetic_add_char", "hwloc__export_synthetic_update_status", "hwloc_check_memory_symmetric"],
                       tiers={"quick": {}, "thorough": {}}, bounds="seed S1 (symmetric, PU os_index 0,1,2,5); any 64-bit flag word; buffer length 0..64; symbolic canary", cost=80))
